@@ -45,6 +45,18 @@ def exen_pairs(ctx, prog, res):
 
 def worker(ctx, job):
     from vf.flo import runner, monitors
+    # "a transition first runs its transit actions, then exits": transitions guarded by `is changed` / `is updated`
+    # out of frames whose exit action writes the watched share -- the marker rule model of the C20 check decides (a
+    # snapshot taken after the exit action instead of before it shows as a later change that is not seen)
+    from vf.checks import c20
+    for case in job.get("transit", []):
+        nf = len(ctx.fails)
+        c20.check_case(ctx, case)
+        for f in ctx.fails[nf:]:
+            f["key"] = "transit-before-exit/" + f["key"]
+        for k in list(ctx.fail_counts):
+            if k.startswith("marker-condition/"):
+                ctx.fail_counts["transit-before-exit/" + k] = ctx.fail_counts.get("transit-before-exit/" + k, 0) + ctx.fail_counts.pop(k)
     for seed, fi in job["items"]:
         rng = random.Random(seed)
         prog = gen.gen_program(rng, gen.pickfeat(FEATS, fi))
@@ -72,7 +84,11 @@ def worker(ctx, job):
 def run(ctx):
     n = ctx.pick(500, 30000)
     items = [(ctx.rng.randrange(1 << 30), i % gen.nfeats(FEATS, ctx)) for i in range(n)]
-    ctx.shard([{"items": items[i::16]} for i in range(16)], timeout=ctx.pick(300, 1500))
+    from vf.checks import c20
+    opts = c20.need_opts()
+    transit = [c20.random_case(ctx.rng, opts, exitwrites=True) for _ in range(ctx.pick(480, 9600))]
+    ctx.shard([{"items": items[i::16], "transit": transit[i::16]} for i in range(16)], timeout=ctx.pick(300, 1500))
+    ctx.floor("exit_writes", 200)
     for k in ("self", "ancestor", "descendant", "same_tree", "other_tree", "start", "stop_abort"):
         ctx.floor("trans_" + k, 10)
     ctx.floor("boundaries_checked", 1000)
